@@ -10,7 +10,7 @@
 
 #define LEMMA_STATE \
   QXmppOutgoingClient c; QXmppOutgoingClientPrivate d; QSslSocket s; \
-  c.d = &d; d.socket.m_socket = &s; \
+  __CPROVER_assume(QXmppOutgoingClientPrivate_ENUMS_VALID(&d)); c.d = &d; d.q = &c; d.socket.m_socket = &s; \
   gh_sent = nondet_uint(); gh_sent_last = nondet_int(); gh_sock_disconnects = nondet_uint(); gh_connects = nondet_uint(); gh_errors = nondet_uint(); \
   gh_ack_closed = nondet_uint(); gh_iq_closed = nondet_uint(); gh_iq_opened = nondet_uint(); gh_iq_cancel_all = nondet_uint(); \
   gh_carbon_opened = nondet_uint(); gh_csi_opened = nondet_uint(); gh_ev_disconnected = nondet_uint(); gh_ev_connected = nondet_uint();
